@@ -141,16 +141,17 @@ TraceNext == DoApply \/ NotEnabled \/ DoMatch \/ Mismatch
 TraceSpec == TraceInit /\ [][TraceNext]_tvars
 
 
-\* The action properties of Processor, exempting the artificial Reset step between concatenated traces.
+\* The action properties of Processor, exempting the artificial steps of this module: the Reset between concatenated
+\* traces, the compare-only phase, and a rejection (which leaves the specification's variables as they are).
 IsReset == ph = 1 \/ (l <= Len(Trace) /\ Trace[l].ev = "Reset")   \* also exempts the compare-only phase
-T_BroadcastValid == [][IsReset \/ BroadcastValidStep]_tvars
-T_NoPeerOverwrite == [][IsReset \/ NoPeerOverwriteStep]_tvars
-T_NoPublishWithoutObservation == [][IsReset \/ NoPublishWithoutObservationStep]_tvars
-T_AtMostOncePerLifetime == [][IsReset \/ AtMostOncePerLifetimeStep]_tvars
-T_SubmittedSticky == [][IsReset \/ SubmittedStickyStep]_tvars
-T_NoEarlyDiscard == [][IsReset \/ NoEarlyDiscardStep]_tvars
-T_RetryCadence == [][IsReset \/ RetryCadenceStep]_tvars
-T_RetryOnlyWhenDue == [][IsReset \/ RetryOnlyWhenDueStep]_tvars
+T_BroadcastValid == [][IsReset \/ UNCHANGED vars \/ BroadcastValidStep]_tvars
+T_NoPeerOverwrite == [][IsReset \/ UNCHANGED vars \/ NoPeerOverwriteStep]_tvars
+T_NoPublishWithoutObservation == [][IsReset \/ UNCHANGED vars \/ NoPublishWithoutObservationStep]_tvars
+T_AtMostOncePerLifetime == [][IsReset \/ UNCHANGED vars \/ AtMostOncePerLifetimeStep]_tvars
+T_SubmittedSticky == [][IsReset \/ UNCHANGED vars \/ SubmittedStickyStep]_tvars
+T_NoEarlyDiscard == [][IsReset \/ UNCHANGED vars \/ NoEarlyDiscardStep]_tvars
+T_RetryCadence == [][IsReset \/ UNCHANGED vars \/ RetryCadenceStep]_tvars
+T_RetryOnlyWhenDue == [][IsReset \/ UNCHANGED vars \/ RetryOnlyWhenDueStep]_tvars
 
 Finished == (l = Len(Trace) + 1 /\ ph = 0) => PrintT(<<"FINISHED", ToJson([lines |-> Len(Trace), rejected |-> rej])>>)
 =============================================================================
